@@ -1114,7 +1114,11 @@ where
             all_acked: ack_wait_sender,
           }) {
           Err(TrySendError::Full(wc)) => {
+            #[cfg(rustdds_verif)]
+            crate::verif::sched::point("AsyncWait.full.before_store_waker");
             *writer.cc_upload_waker.lock().unwrap() = Some(cx.waker().clone());
+            #[cfg(rustdds_verif)]
+            crate::verif::sched::point("AsyncWait.full.after_store_waker");
             writer.cc_upload.try_send(wc)
           }
           other => other,
